@@ -146,6 +146,28 @@ func c12unregistered(c *Ctx, mod string, tab *TableSpec) {
 		}
 		c.res.Obl++
 		c.res.Dis++
+		// the same key once more, in the state the first look-up left behind (memo of the last row, negative cache)
+		twice := func(val func(*Term) uint64) []map[string]any { return append(steps(val), steps(val)...) }
+		fs.frames = nil
+		e.pushCall(fs, fn, []Value{kv}, nil)
+		for _, fs2 := range e.Run(fs) {
+			if c.PathProblem(fs2, tab.NewFn+" (second look-up)", func(val func(*Term) uint64, msg string) *Violation {
+				return &Violation{Obligation: "second-lookup-no-panic", Detail: tab.NewFn + " panics when the same unregistered key is looked up again: " + msg, Model: map[string]any{"key": kj(val)},
+					Replay: &ReplayReq{Steps: twice(val), Judge: Judge{Kind: "panic"}}}
+			}) {
+				continue
+			}
+			rv2 := fs2.ret.(TupleV)
+			if isNilErr(rv2[1]) || dynTypeName(rv2[0]) != "" {
+				c.Prove(fs2, "second-lookup-is-an-error", False, func(val func(*Term) uint64) *Violation {
+					return &Violation{Detail: fmt.Sprintf("%s accepts the unregistered key %v on the second look-up", tab.NewFn, kj(val)), Model: map[string]any{"key": kj(val)},
+						Replay: &ReplayReq{Steps: twice(val), Judge: Judge{Kind: "err_nil", Step: 1}}}
+				})
+				continue
+			}
+			c.res.Obl++
+			c.res.Dis++
+		}
 	}
 }
 
